@@ -212,6 +212,34 @@ func extractC08() *lean {
 		l.def("addFirstAfterCommit", "List String", leanStrList(firstAfter), firstAfter)
 		l.def("addDefers", "List String", leanStrList(defers), defers)
 	}
+	// state.Add: the steps of the write function, in order (which of them write to the store is what the model's
+	// `putFails` counts: writePayload 1, markPayloadEventSaved 1, graph.add 4-5, updateState 2)
+	{
+		var steps []string
+		if addFn := funcDecl(st, "Add"); addFn != nil {
+			ast.Inspect(addFn, func(n ast.Node) bool {
+				c, ok := n.(*ast.CallExpr)
+				if !ok || exprString(c.Fun) != "s.db.Write" || len(c.Args) < 2 {
+					return true
+				}
+				if fl, ok := c.Args[1].(*ast.FuncLit); ok {
+					ast.Inspect(fl.Body, func(m ast.Node) bool {
+						if c2, ok := m.(*ast.CallExpr); ok {
+							switch nm := exprString(c2.Fun); {
+							case strings.HasPrefix(nm, "s.") || nm == "markPayloadEventSaved" || strings.HasPrefix(nm, "tx."):
+								steps = append(steps, nm)
+							}
+						}
+						return true
+					})
+				}
+				return false
+			})
+		}
+		l.def("addWriteSteps", "List String", leanStrList(steps), steps)
+		us2 := c08Calls(funcDecl(dg, "add"), "d.")
+		l.def("dagAddSteps", "List String", leanStrList(us2), us2)
+	}
 	l.def("addTxOptions", "List String", leanStrList(c08Calls(funcDecl(st, "Add"), "stoabs.")), c08Calls(funcDecl(st, "Add"), "stoabs."))
 
 	// comparison operators / call structure the model mirrors
